@@ -78,7 +78,7 @@ class Call2Mixin:
 
   def call_repo(self, mod, cls, node, args, kwargs, closure=None):
     qn = self.qualname(mod, cls, node)
-    c = self.reg.contract_for(qn, self.prop)
+    c = self.reg.contract_for(qn, self.prop, (self, args, kwargs))
     if c is not None and not c.inline and not (self.verifying == qn and self.call_depth == 0):
       return self.apply_contract(c, mod, cls, node, args, kwargs)
     if self.call_depth > MAX_DEPTH:
